@@ -30,6 +30,9 @@ pub struct Pending {
     pub kind: RpcKind,
     pub from: usize,
     pub to: usize,
+    /// false: the request waits to be delivered; true: the callee has answered and the
+    /// response waits to be delivered back to the caller
+    pub is_reply: bool,
     tx: Option<oneshot::Sender<Decision>>,
 }
 
@@ -62,6 +65,8 @@ pub struct CtlInner {
     pub msg_gate: Option<usize>,
     msg_waiters: Vec<oneshot::Sender<()>>,
     pub handles: Vec<Option<PolicyStateHandle>>,
+    /// deliver responses as separate explorer actions
+    pub split_replies: bool,
 }
 
 #[derive(Default)]
@@ -93,6 +98,9 @@ impl Ctl {
     }
     pub fn pending_ids(&self) -> Vec<(usize, RpcKind, usize, usize)> {
         self.inner.lock().unwrap().pending.iter().map(|p| (p.id, p.kind, p.from, p.to)).collect()
+    }
+    pub fn pending_full(&self) -> Vec<(usize, RpcKind, usize, usize, bool)> {
+        self.inner.lock().unwrap().pending.iter().map(|p| (p.id, p.kind, p.from, p.to, p.is_reply)).collect()
     }
     pub fn decide(&self, id: usize, d: Decision) -> bool {
         let mut g = self.inner.lock().unwrap();
@@ -147,7 +155,7 @@ impl Client {
             let mut g = self.ctl.inner.lock().unwrap();
             let id = g.next_id;
             g.next_id += 1;
-            g.pending.push(Pending { id, kind, from: self.party, to, tx: Some(tx) });
+            g.pending.push(Pending { id, kind, from: self.party, to, is_reply: false, tx: Some(tx) });
             g.events += 1;
             g.log.push(LogEv::RpcIssued { id, kind, from: self.party, to });
             let t = self.ctl.clock.fetch_add(1, std::sync::atomic::Ordering::SeqCst);
@@ -167,6 +175,23 @@ impl Client {
             None => Err(ClientErr(format!("no such party {to}"))),
         }
     }
+    /// With split replies the response travels back as a separate explorer action.
+    async fn reply_gate(&self, kind: RpcKind, to: usize) {
+        let rx = {
+            let mut g = self.ctl.inner.lock().unwrap();
+            if !g.split_replies {
+                return;
+            }
+            let (tx, rx) = oneshot::channel();
+            let id = g.next_id;
+            g.next_id += 1;
+            g.pending.push(Pending { id, kind, from: self.party, to, is_reply: true, tx: Some(tx) });
+            g.events += 1;
+            rx
+        };
+        let _ = rx.await;
+    }
+
     fn done<E: std::fmt::Debug>(&self, id: usize, kind: RpcKind, to: usize, r: Result<(), E>) -> Result<(), ClientErr> {
         self.ctl.event(LogEv::RpcDone { id, kind, from: self.party, to, ok: r.is_ok() });
         r.map_err(|e| ClientErr(format!("{e:?}")))
@@ -179,18 +204,21 @@ impl PolicyClient for Client {
     async fn validate(&self, to: usize, req: ValidateRequest) -> Result<(), ClientErr> {
         let (id, h) = self.coord(RpcKind::Validate, to).await?;
         let r = h.validate(req).await;
+        self.reply_gate(RpcKind::Validate, to).await;
         self.done(id, RpcKind::Validate, to, r)
     }
 
     async fn run(&self, to: usize, req: RunRequest) -> Result<(), ClientErr> {
         let (id, h) = self.coord(RpcKind::Run, to).await?;
         let r = h.run(req).await;
+        self.reply_gate(RpcKind::Run, to).await;
         self.done(id, RpcKind::Run, to, r)
     }
 
     async fn consts(&self, to: usize, req: ConstsRequest) -> Result<(), ClientErr> {
         let (id, h) = self.coord(RpcKind::Consts, to).await?;
         let r = h.consts(req).await;
+        self.reply_gate(RpcKind::Consts, to).await;
         self.done(id, RpcKind::Consts, to, r)
     }
 
